@@ -9,6 +9,8 @@ import (
 	"net/http"
 	"net/http/httptest"
 	"os"
+	"path/filepath"
+	"reflect"
 	"runtime"
 	"runtime/pprof"
 	"slices"
@@ -57,6 +59,9 @@ type Case struct {
 	Resolver    bool   `json:"resolver"`
 	Middleware  int    `json:"middleware"`
 	Hostnames   bool   `json:"hostnames"`
+	// Deep adds that many routes nested as prefixes of each other ("/deep/z", "/deep/zz", ...) and as many siblings:
+	// read paths size their scratch space from the depth and width of the tree, so shape is part of the configuration.
+	Deep int `json:"deep,omitempty"`
 }
 
 var stages = []string{"opened", "after-writes", "inside-updates", "after-iter", "after-snapshot"}
@@ -136,6 +141,15 @@ func reads(f *fox.Router, host string) []read {
 			for range it.Prefix(it.Methods(), "/r") {
 			}
 		}},
+		{"Router.Iter.Prefix deep", func() {
+			it := f.Iter()
+			for range it.Prefix(it.Methods(), "/deep/zz") {
+			}
+			for range it.Prefix(slices.Values(ms), "/wide") {
+				break
+			}
+		}},
+		{"ServeHTTP deep", serve("GET", "/deep/"+strings.Repeat("z", 30)+"/v/yyy")},
 		{"Router.Iter.Routes", func() {
 			for range f.Iter().Routes(slices.Values(ms), "/static") {
 			}
@@ -219,6 +233,11 @@ func build(c *Case) (*fox.Router, error) {
 	f.MustHandle("GET", pre+"/files/*{path}", h)
 	f.MustHandle("GET", pre+"/ign/{id}", h, fox.WithIgnoreTrailingSlash(true))
 	f.MustHandle("GET", pre+"/red/{id}/", h, fox.WithRedirectTrailingSlash(true))
+	for i := 1; i <= c.Deep; i++ {
+		f.MustHandle("GET", pre+"/deep/"+strings.Repeat("z", i), h)
+		f.MustHandle("GET", pre+"/deep/"+strings.Repeat("z", i)+"/{p}/"+strings.Repeat("y", i%7+1), h)
+		f.MustHandle("GET", pre+fmt.Sprintf("/wide/%c%d", 'a'+i%26, i), h)
+	}
 	return f, nil
 }
 
@@ -231,17 +250,19 @@ func waitAll(done []chan struct{}, names []string, desc string) error {
 		case <-deadline:
 			buf := make([]byte, 4<<20)
 			buf = buf[:runtime.Stack(buf, true)]
+			var pending []string
 			for _, g := range strings.Split(string(buf), "\n\n") {
 				if !strings.Contains(g, "c06.runRead") {
 					continue
 				}
+				pending = append(pending, g)
 				if blockedInFox(g) {
 					return fmt.Errorf("%s: read %q did not complete while the write transaction was held open; a reader goroutine is blocked inside fox:\n%s", desc, names[i], g)
 				}
 			}
 			inconclusive = true
 			stats.MarkInconclusive("reads did not complete in time but no reader is blocked inside fox")
-			return fmt.Errorf("%s: read %q did not complete within 20s but no reader is blocked inside fox (inconclusive)", desc, names[i])
+			return fmt.Errorf("%s: read %q did not complete within 20s but no reader is blocked inside fox (inconclusive); pending readers:\n%s", desc, names[i], strings.Join(pending, "\n\n"))
 		}
 	}
 	return nil
@@ -252,11 +273,24 @@ var waitPrims = []string{"sync.(*Mutex).Lock", "sync.(*RWMutex).Lock", "sync.(*R
 // blockedInFox: the goroutine's stack shows a fox (root package) frame directly calling a sync/channel wait.
 func blockedInFox(g string) bool {
 	lines := strings.Split(g, "\n")
-	var frames []string
+	var frames, files []string
 	for _, l := range lines[1:] {
-		if !strings.HasPrefix(l, "\t") && l != "" {
-			frames = append(frames, l)
+		if l == "" {
+			continue
 		}
+		if strings.HasPrefix(l, "\t") {
+			if len(files) < len(frames) {
+				files = append(files, strings.TrimSpace(l))
+			}
+			continue
+		}
+		for len(files) < len(frames) {
+			files = append(files, "")
+		}
+		frames = append(frames, l)
+	}
+	for len(files) < len(frames) {
+		files = append(files, "")
 	}
 	for i, fr := range frames {
 		for _, p := range waitPrims {
@@ -269,12 +303,28 @@ func blockedInFox(g string) bool {
 						}
 						continue
 					}
-					return strings.HasPrefix(frames[j], "github.com/tigerwill90/fox.")
+					return foxFrame(frames[j], files[j])
 				}
 			}
 		}
 	}
 	return false
+}
+
+// foxDir is the directory the router's sources were compiled from.
+var foxDir = func() string {
+	f := runtime.FuncForPC(reflect.ValueOf(fox.DefaultNotFoundHandler).Pointer())
+	if f == nil {
+		return "\x00"
+	}
+	file, _ := f.FileLine(f.Entry())
+	return filepath.Dir(file) + "/"
+}()
+
+// foxFrame: the frame is code of the router. An iterator closure inlined into its caller carries the caller's package in
+// its name (verif/c06.reads.func18.Iter.All.1.Iter.Prefix.3), so the source file decides as well as the name.
+func foxFrame(fn, file string) bool {
+	return strings.HasPrefix(fn, "github.com/tigerwill90/fox.") || strings.HasPrefix(file, foxDir)
 }
 
 func runRead(fn func(), done chan struct{}) {
@@ -432,6 +482,7 @@ func genCase(t *rapid.T) *Case {
 		Stage: gen.Pick(t, stages, "stage"), Writes: gen.IntR(t, 0, 6, "writes"),
 		TS: gen.Pick(t, []int{rt.TSNone, rt.TSIgnore, rt.TSRedirect}, "ts"), NoMethod: gen.Chance(t, 1, 2, "nm"), AutoOptions: gen.Chance(t, 1, 2, "ao"),
 		Resolver: gen.Chance(t, 1, 2, "res"), Middleware: gen.IntR(t, 0, 3, "mw"), Hostnames: gen.Chance(t, 1, 3, "hosts"),
+		Deep: gen.Pick(t, []int{0, 0, 8, 24, 25, 26, 40, 120}, "deep"),
 	}
 }
 
@@ -446,7 +497,8 @@ func fail(t interface{ Fatalf(string, ...any) }, c *Case, err error) {
 // TestMatrix: the full entry point x stage matrix with default and "everything on" options.
 func TestMatrix(t *testing.T) {
 	for _, st := range stages {
-		for _, c := range []*Case{{Stage: st, Writes: 3}, {Stage: st, Writes: 5, TS: rt.TSRedirect, NoMethod: true, AutoOptions: true, Resolver: true, Middleware: 2, Hostnames: true}} {
+		for _, c := range []*Case{{Stage: st, Writes: 3}, {Stage: st, Writes: 5, TS: rt.TSRedirect, NoMethod: true, AutoOptions: true, Resolver: true, Middleware: 2, Hostnames: true},
+			{Stage: st, Writes: 3, Deep: 40}, {Stage: st, Writes: 2, TS: rt.TSIgnore, Hostnames: true, Deep: 64}} {
 			stats.Sample(c)
 			if err := checkCase(c, true); err != nil {
 				fail(t, c, err)
@@ -467,7 +519,7 @@ func TestRandomOptions(t *testing.T) {
 // blockProfile: readers hammer every read entry point while a writer stream commits; no block-profile
 // record may show a reader blocked in a wait called directly by a fox frame.
 func blockProfile(d time.Duration) error {
-	c := &Case{Stage: "opened", TS: rt.TSIgnore, NoMethod: true, AutoOptions: true, Middleware: 1}
+	c := &Case{Stage: "opened", TS: rt.TSIgnore, NoMethod: true, AutoOptions: true, Middleware: 1, Deep: 40}
 	f, err := build(c)
 	if err != nil {
 		return nil
@@ -517,12 +569,17 @@ func blockProfile(d time.Duration) error {
 		}
 		records++
 		// frames are listed innermost first as "#\t0x... \tfunc+0x..\tfile:line"
-		var frames []string
+		var frames, files []string
 		for _, l := range strings.Split(rec, "\n") {
 			if strings.HasPrefix(l, "#\t") {
 				parts := strings.Split(l, "\t")
 				if len(parts) >= 3 {
 					frames = append(frames, strings.TrimSpace(parts[2]))
+					if len(parts) >= 4 {
+						files = append(files, strings.TrimSpace(parts[3]))
+					} else {
+						files = append(files, "")
+					}
 				}
 			}
 		}
@@ -536,7 +593,7 @@ func blockProfile(d time.Duration) error {
 			if !isWait || i+1 >= len(frames) {
 				continue
 			}
-			if strings.HasPrefix(frames[i+1], "github.com/tigerwill90/fox.") {
+			if foxFrame(frames[i+1], files[i+1]) {
 				return fmt.Errorf("block profile: a reader blocked in %s called directly by %s:\n%s", fr, frames[i+1], rec)
 			}
 		}
